@@ -4,6 +4,7 @@ import (
 	"time"
 
 	"github.com/karagenc/socket.io-go/internal/sync"
+	"github.com/karagenc/socket.io-go/internal/verifhook"
 
 	eio "github.com/karagenc/socket.io-go/engine.io"
 	eioparser "github.com/karagenc/socket.io-go/engine.io/parser"
@@ -35,6 +36,7 @@ func (pq *packetQueue) poll() (packets []*eioparser.Packet, ok, closed bool) {
 		return
 	}
 
+	verifhook.Yield("packetqueue-window")
 	select {
 	// _close takes precedence.
 	// Otherwise we would go with the already-invoked `pq.ready` channel.
